@@ -533,6 +533,14 @@ func Judge(sc *Scenario, tr *Trace) ([]pbt.Violation, Stats) {
 				prev = a
 				continue
 			}
+			if prev.Done.After(a.Flush) {
+				// the previous delivery was still in flight when this flush decided (a receiver that does not abort on
+				// cancellation, an old dispatcher's flush finishing after a reload): it could not be known yet
+				if a.Done.After(prev.Done) {
+					prev = a
+				}
+				continue
+			}
 			fp, rp := split(prev)
 			// the entry of the previous delivery lives min(retention, 2 x the repeat_interval in force then): after a
 			// reload that raised repeat_interval it can be gone although the new repeat_interval has not passed
